@@ -1213,6 +1213,10 @@ class Tensor:
             if isinstance(v, Tensor):
                 # tensor's graph has been cleared, but its base lingers
                 if v._base is not None and v._creator is None:
+                    # what the view reports as its gradient must not
+                    # change when it is detached from its base
+                    v._grad = v.grad
+                    v._view_grad = None
                     v._base = None
 
                 if base is None:
